@@ -868,7 +868,13 @@ class Scenario:
                 self.payloads[v.id].obj = nidx
                 x['obj'] = nidx
                 if v.id == self.objs[old].pid:
-                    # the value was stolen from the old allocation (sole strong handle + Weak)
+                    # the value was stolen from the old allocation: only legitimate when this was the sole strong handle
+                    others = self.holders(old)
+                    if not (isinstance(others, int) and others == 0):
+                        lab = 'C06' if 'C06' in self.oracles else ('C12' if 'C12' in self.oracles else None)
+                        if lab:
+                            self.require(s_eq(others, 0), lab, 'make-mut-steals-shared-value',
+                                         'Rc::make_mut moved the value out of object %d although other strong handles to it exist' % old, subject=[old])
                     self.objs[old].unwrapped = True
                 self.obs(op, 'moved' if v.id == self.objs[old].pid else 'cloned')
             else:
